@@ -52,7 +52,11 @@ def main():
                 results[mid] = {'error': 'patch does not apply'}
                 continue
             entry = {'property': meta['property'], 'checks': {}}
-            if '--skip-suite' not in sys.argv:
+            if '--skip-suite' not in sys.argv and meta.get('benign'):
+                code, out = sh([PY, '-m', 'pytest', '-q', '-p', 'no:cacheprovider', '--no-cov', '-x'], cwd=copy)
+                entry['suite'] = 'passes' if code == 0 else 'FAILS'
+                print(f'{mid}: suite {entry["suite"]}')
+            elif '--skip-suite' not in sys.argv:
                 code, out = sh([PY, '-m', 'pytest', '-q', '-p', 'no:cacheprovider', '--no-cov', '-x'], cwd=copy)
                 entry['suite'] = 'passes' if code == 0 else 'FAILS'
                 demo = os.path.join(mdir, meta.get('demo', 'demo.py'))
@@ -69,6 +73,8 @@ def main():
                 viol = [l for l in out.splitlines() if l.startswith('VIOLATION')]
                 first = [l for l in out.splitlines() if l.startswith('violation:')]
                 status = 'CAUGHT' if code == 1 and viol else ('MISSED' if code == 0 else f'ERROR({code})')
+                if meta.get('benign'):
+                    status = 'SILENT(ok)' if code == 0 else (f'FALSE-ALARM' if code == 1 else f'ERROR({code})')
                 entry['checks'][chk] = {'status': status, 'tier': tier, 'wall_s': round(time.time() - t0, 1),
                                         'first': first[0][:300] if first else (out[-300:] if code not in (0, 1) else '')}
                 print(f'{mid} [{meta["property"]}] check {chk} ({tier}): {status} {entry["checks"][chk]["first"][:160]}')
